@@ -25,12 +25,13 @@ import (
 const sidRgl = 171
 
 type rglThread struct {
-	id   int
-	kind int // 1 register 2 get 3 getcfg 4 remove 5 closeall
-	at   int // yield point parked at (0 = before the first shared access)
-	done bool
-	err  error
-	inst any
+	id    int
+	kind  int // 1 register 2 get 3 getcfg 4 remove 5 closeall
+	at    int // yield point parked at (0 = before the first shared access)
+	done  bool
+	err   error
+	inst  any
+	start map[string]any
 }
 
 func rglTypeCode(t reflect.Type) int64 {
@@ -197,6 +198,9 @@ func streamRgl(o opts) {
 				break
 			}
 			th := pick(r, enabled)
+			if th.kind == 5 && th.at == 0 && th.start == nil {
+				th.start, _, _ = mg.VerifState() // what is registered when this CloseAll begins
+			}
 			p := kioshun.VerifSchedStep(th.id)
 			for p > 0 && p != 401 && (p < 411 || p > 440) { // yield points inside the cache (Close): not the registry's
 				p = kioshun.VerifSchedStep(th.id)
@@ -212,6 +216,16 @@ func streamRgl(o opts) {
 					id = number(th.inst)
 				}
 				obs.I(-1, regErr(th.err), id)
+				if th.kind == 5 {
+					// an instance registered when CloseAll began and still registered when it returns was registered
+					// throughout (a removed instance is closed and never stored again): Range must have visited it
+					now, _, _ := mg.VerifState()
+					for n, inst := range th.start {
+						if cur, ok := now[n]; ok && cur == inst {
+							m.violate("C17", fmt.Sprintf("rgl trace %d: CloseAll (call %d) returned although the instance registered under %q during its whole run is still registered (closed=%v): CloseAll closes every instance (schedule %v)", t, th.id, n, isClosedCache(inst), log), fmt.Sprint(t))
+						}
+					}
+				}
 			case p > 0:
 				th.at = p
 				m.count(fmt.Sprintf("pt%d", p))
